@@ -50,6 +50,9 @@ def run_stage(ctx, binp=None, n=None):
     """returns the number of disagreeing goals; violations and proof failures are registered on ctx"""
     binp = binp or build_harness(ctx)
     n = n or (25 if ctx.tier == "quick" else 200)
+    for m in getattr(ctx, "gen_msgs_all", []):      # set by regen(): a refused source construct is a broken obligation here
+        if any(m.rstrip().endswith(f"[generator {g}]") for g in GENERATORS) and not any(m == pf[2] for pf in ctx.proof_failures):
+            ctx.proof_failures.append(("Gen/", "translator", m))
     ok, fails, _ = coq_build(ctx, FILES, timeout=1500)
     deps = sorted({d for f in FILES for d in deps_of(f[:-1])})
     for f, ln, w in static_scan(ctx, [d for d in deps if d.startswith(("Proofs/Compose_", "Gen/Wrappers", "Gen/GridRes", "Gen/PMSimple"))]):
@@ -97,10 +100,7 @@ def run(ctx):
     """stand-alone entry: ./check wrappers"""
     binp = build_harness(ctx)
     msgs, spans = regen(ctx, GENERATORS)
-    for m in msgs:
-        ctx.proof_failures.append(("Gen/", "translator", m))
-    if not msgs:
-        run_stage(ctx, binp)
+    run_stage(ctx, binp)
     ctx.cov["rule"] = "random SPDC objects (crystal length, elliptic pump waist, non-collinear signal + optimum idler, poled/unpoled), random frequencies and arguments"
     ctx.cov["clauses"] = {"forwarders: callee, argument order, field updates": "pinned by reflexivity against the generated definitions (Compose_wrappers, Compose_wrappers_eff, Compose_gridres)",
                           "generated small functions = implementation": "interval goals (Compose_pmsimple_cases)",
